@@ -51,7 +51,7 @@ ASSUMPTIONS = [
   'branch) or a shape outside the proof only (slices whose bounds are not plain integer expressions, widths >= 1024); '
   'F4, N2, N3, N5 were repaired in /repo and the model follows the repaired rules',
 ]
-RULE = ('streams: typed (type-directed terms, no injected defects), multi (2-3 instances of one class with different per-instance constants read through s.P / s.cfg.n / s.T[1], checked forwards, backwards and inside one design), mixite (if-expressions with one implicit and one explicitly sized branch, both orders, in wider/equal/narrower explicit contexts, directly / through a temporary / nested), tmpseq (straight-line re-assignments of a temporary: literal/explicit/other width, then a narrower/equal/wider use), boolop (comparison results / Bool-typed terms as left and right operands against explicitly sized w-bit operands), desc (descending constant ranges whose loop variable meets a w-bit operand: first value fits / only the last fits), noisy (same with width/literal defects injected at each choice point), '
+RULE = ('streams: typed (type-directed terms, no injected defects), unconst (~ / - applied directly to BitsN constants - cast, s.CONST, bare name, list element - in wider / equal / narrower contexts), multi (2-3 instances of one class with different per-instance constants read through s.P / s.cfg.n / s.T[1], checked forwards, backwards and inside one design), mixite (if-expressions with one implicit and one explicitly sized branch, both orders, in wider/equal/narrower explicit contexts, directly / through a temporary / nested), tmpseq (straight-line re-assignments of a temporary: literal/explicit/other width, then a narrower/equal/wider use), boolop (comparison results / Bool-typed terms as left and right operands against explicitly sized w-bit operands), desc (descending constant ranges whose loop variable meets a w-bit operand: first value fits / only the last fits), noisy (same with width/literal defects injected at each choice point), '
         'wild (unconstrained small terms, mostly rejected), one labelled stream per known hole (F12, N1, N4) and per repaired one (F4, N2, N3, N5: must now be rejected / clean), directed corpus; '
         'signal values boundary-biased; non-trivial = elaborated and checked by the real passes; distinct = distinct case tuple')
 
@@ -822,6 +822,12 @@ def corpus():
     mk(30, [[0, 3, 'in'], [1, 3, 'out']], [['for', 0, 8, 0, -1, [['asg', S(1, 3), ['bin', 'add', S(0, 3), ['lv', 0]]]]]]),
     mk(31, [[0, 4, 'out']], [['for', 0, 16, 0, -4, [['asg', S(0, 4), ['lv', 0]]]]]),
     mk(32, [[0, 3, 'in'], [1, 3, 'out']], [['for', 0, 8, 0, -1, [['ifs', ['cmp', 'eq', S(0, 3), ['lv', 0]], [['asg', S(1, 3), S(0, 3)]], []]]]]),
+    # ~ applied directly to an explicitly sized constant: the constant keeps its width
+    mk(61, [[0, 16, 'out']], [['asg', S(0, 16), ['un', 'inv', ['cast', 8, N(15), 'call']]]]),
+    mk(62, [[0, 16, 'in'], [1, 16, 'out']], [['asg', S(1, 16), ['bin', 'band', S(0, 16), ['un', 'inv', ['cast', 8, N(15), 'const']]]]]),
+    mk(63, [[0, 16, 'in'], [1, 1, 'out']], [['asg', S(1, 1), ['cmp', 'eq', S(0, 16), ['un', 'inv', ['cast', 8, N(15), 'globfv']]]]]),
+    mk(64, [[0, 8, 'in'], [1, 8, 'out']], [['asg', S(1, 8), ['bin', 'band', S(0, 8), ['un', 'inv', ['cast', 8, N(15), 'locfv']]]]]),
+    mk(65, [[0, 8, 'out']], [['asg', S(0, 8), ['un', 'inv', ['cast', 8, N(15), 'const']]]]),
     # BitsN constants referenced by bare name (module level / construct() local): explicit of their own width
     mk(54, io8, [['asg', S(3, 8), ['bin', 'add', S(0, 8), ['cast', 4, N(3), 'globfv']]]]),
     mk(55, io8, [['asg', S(3, 8), ['bin', 'add', S(0, 8), ['cast', 8, N(3), 'locfv']]]]),
@@ -894,6 +900,7 @@ def run(ck):
     batch(14 if quick else 36, lambda u: G.gen_tmpseq(rng, u))
     batch(14 if quick else 36, lambda u: G.gen_mixite(rng, u))
     batch(14 if quick else 36, lambda u: G.gen_fvar(rng, u))
+    batch(12 if quick else 30, lambda u: G.gen_unconst(rng, u))
     mc = []
     for _ in range(5 if quick else 14):
       uid[0] += 1; mc.append(G.gen_multi(rng, uid[0]))
